@@ -230,6 +230,33 @@ def d2(cx: Cx, ob: Ob) -> None:
             src = val[1][1] if op(val) == "call" and op(val[1]) == "attr" else None
             if src != ("item", df, col):
                 ob.violate(fn.qualname, where(fn, ev.line), f"{name} reads `{show(src)[:40] if src else '?'}`, not df[column]", detail="source")
+        # DataFrame.insert(loc, label, values) is not an assignment: it raises ValueError when the label is already a
+        # column (allow_duplicates defaults to False), where `df[label] = values` replaces that column
+        inserted = False
+        for ev, ctx in s.events("expr"):
+            c = ev.a
+            if not (op(c) == "call" and callee_name(c) == "insert" and op(c[1]) == "attr" and c[1][1] == df and len(c[2]) >= 2):
+                continue
+            inserted = True
+            label = c[2][1]
+            kw = dict(c[3])
+            conds = [(g.a, g.b) for g in ctx.guards if g.kind == "guard"]
+            absent = any((op(a) == "cmp" and a[2] == label and ((a[1] == "in" and b is False) or (a[1] == "not in" and b is True)) and any(x == df for x in subterms(a[3]))) for a, b in conds)
+            ob.site(f"{where(fn, ev.line)} {fn.qualname}", f"df.insert(.., {show(label)[:30]}, ..) {'only when that label is not a column yet' if absent else ''}")
+            if absent or is_const(kw.get("allow_duplicates"), True):
+                if is_const(kw.get("allow_duplicates"), True):
+                    ob.undecide(f"{name}: df.insert(.., allow_duplicates=True) - a second column of the same label instead of replacing it")
+                continue
+            ob.violate(
+                fn.qualname,
+                where(fn, ev.line),
+                f"{name} puts the result into the frame with `{show(c)[:70]}`: DataFrame.insert raises ValueError when `{show(label)[:30]}` is already a column, where the assignment it stands for replaces that column - converting a second time (or into any existing column) now fails",
+                witness="df with columns ['uri', 'curie']; pd_compress(df, 'uri', target_column='curie') raises ValueError: cannot insert curie, already exists",
+                detail="insert-existing-column",
+            )
+        covers_target = inserted or any(any(x == tc for x in subterms(ev.a[2])) for ev, _ in stores)
+        if not covers_target:
+            ob.undecide(f"{name}: no store into the frame mentions target_column")
 
 
 def _is_write_open(t, pathvars) -> tuple | None:
